@@ -16,7 +16,7 @@
 (*  {"k":"Create","c":session,"h":handle,"err":"","panic":"","proof":"hex","exphash":hex?}   CreateProof(h)              *)
 (*  {"k":"Key","key":"0101..","err":""|"e","panic":"","val":{"cells":[..],"roots":[0]},"proof":"hex","exp":{found,v}?}  *)
 (* A rejected event prints <<"NOTE", line, clause, class>>; class names the     *)
-(* input class: twin / valueref (see KeyClass), partial (source has pruned branches), held (a Prune through a cursor value kept while others were derived), leak (every pruned branch that   *)
+(* input class: twin / valueref (see KeyClass), partial (source has pruned branches), beneath-merkle (the prune set has a position strictly beneath a Merkle cell of the source) / merkle (the source has Merkle cells below its root), held (a Prune through a cursor value kept while others were derived), leak (every pruned branch that   *)
 (* this request does not account for was pruned by an EARLIER request of the     *)
 (* same prover), plain.  Clauses starting with "domain:" mean the harness or the *)
 (* specification is inconsistent (never a verdict on the code).                  *)
@@ -51,7 +51,11 @@ Reject(reason, class) == PrintT(<<"NOTE", l, reason, class>>) /\ FALSE
 \* came from is judged in its own segment); nothing can be said about this prover.
 ResetOutcome(e) ==
   LET T0 == FromJson(e.cells)  R0 == e.roots[1] + 1 IN
-  IF ~SourceOK(T0) THEN [why |-> IF Has(e, "orig") THEN "skip:source-not-well-formed" ELSE "domain:tree"]
+  \* a level-0 tree with Merkle-proof / Merkle-update cells below the root (cursor walks only)
+  IF HasMerkle(T0) THEN (IF ExoticSourceOK(T0, R0) /\ e.n = 0 /\ ~Has(e, "orig")
+                           THEN [why |-> "", T |-> T0, IT |-> InfoTable(T0), R |-> R0, present |-> {}]
+                           ELSE [why |-> "domain:tree"])
+  ELSE IF ~SourceOK(T0) THEN [why |-> IF Has(e, "orig") THEN "skip:source-not-well-formed" ELSE "domain:tree"]
   ELSE IF Partial(T0) /\ ~Has(e, "orig") THEN [why |-> "domain:partial-source-without-original"]
   ELSE
   LET hasO == Has(e, "orig")
@@ -92,7 +96,9 @@ TPrune == /\ E.k = "Prune"
 CreateOutcome(e, tT, tIT, tR, ss, hh) ==
   IF ~HasCursor(ss, e.c, e.h) THEN [reason |-> "domain:no-such-cursor", class |-> "plain"]
   ELSE IF e.panic # "" THEN [reason |-> "panic", class |-> "plain"]
-  ELSE IF e.err # "" THEN [reason |-> "create-proof-error", class |-> "plain"]
+  \* a refusal is allowed iff a Merkle cell of the source is reached by the session's prune set (MerkleProof, header)
+  ELSE IF e.err # "" THEN (IF e.proof = "" /\ MerkleReached(tT, tR, ss[e.c].ps) THEN [reason |-> "", class |-> "", sem |-> "refused:merkle-cell-reached", add |-> {}]
+                           ELSE [reason |-> "create-proof-error", class |-> IF HasMerkle(tT) THEN "merkle" ELSE "plain"])
   ELSE LET PS == ss[e.c].ps
            wv == WalkVerdict(HexToBytes(e.proof), tT, tIT, tR, PS)
            \* prunes of earlier requests and of the other sessions of this prover
@@ -100,7 +106,8 @@ CreateOutcome(e, tT, tIT, tR, ss, hh) ==
            leak == wv.reason = "pruned-but-not-asked" /\ wv.extra \subseteq foreign
            \* the prune set is wrong although nothing leaked, and a Prune went through a cursor value that had been held
            held == wv.reason \in {"asked-but-not-pruned", "pruned-but-not-asked"} /\ ss[e.c].held
-       IN IF wv.reason # "" THEN [reason |-> wv.reason, class |-> IF leak THEN "leak" ELSE IF held THEN "held" ELSE IF Partial(tT) THEN "partial" ELSE "plain"]
+       IN IF wv.reason # "" THEN [reason |-> wv.reason, class |-> IF leak THEN "leak" ELSE IF held THEN "held" ELSE IF Partial(tT) THEN "partial"
+                                                                  ELSE IF PrunesBeneathMerkle(tT, tR, PS) THEN "beneath-merkle" ELSE IF HasMerkle(tT) THEN "merkle" ELSE "plain"]
           \* S->C: under the occurrence reading the bag is the very proof the generator computed
           ELSE IF Has(e, "exphash") /\ wv.sem = "occurrence" /\ BytesToHex(wv.hash) # e.exphash THEN [reason |-> "domain:spec-inconsistent", class |-> "plain"]
           ELSE [reason |-> "", class |-> "", sem |-> wv.sem, add |-> wv.psp \cup PS]
